@@ -274,11 +274,12 @@ pub fn canon(v: &TVal) -> TVal {
             fs.sort_by(|a, b| a.0.cmp(&b.0).then_with(|| canon_key(&a.1).cmp(&canon_key(&b.1))));
             TVal::Struct(fs)
         }
-        TVal::List(t, es) => TVal::List(*t, es.iter().map(canon).collect()),
+        // the element type of an empty container carries no information
+        TVal::List(t, es) => TVal::List(if es.is_empty() { TT::Bool } else { *t }, es.iter().map(canon).collect()),
         TVal::Set(t, es) => {
             let mut es: Vec<TVal> = es.iter().map(canon).collect();
             es.sort_by_key(canon_key);
-            TVal::Set(*t, es)
+            TVal::Set(if es.is_empty() { TT::Bool } else { *t }, es)
         }
         TVal::Map(k, vt, es) => {
             if es.is_empty() {
@@ -368,7 +369,12 @@ impl SDoc {
         match self.resolve(ty) {
             Resolved::Enum(_) => TVal::I32(0),
             Resolved::Struct(fs) => self.struct_default(fs),
-            Resolved::Union(_) => TVal::Struct(vec![]),
+            // a union has no empty value: its Default is the first variant holding that variant's
+            // own empty value
+            Resolved::Union(fs) => match fs.first() {
+                Some(f) => TVal::Struct(vec![(f.id, self.zero_value(&f.ty))]),
+                None => TVal::Struct(vec![]),
+            },
             Resolved::Plain(p) => match p {
                 STy::Bool => TVal::Bool(false),
                 STy::Byte => TVal::I8(0),
@@ -444,16 +450,22 @@ impl SDoc {
         }
     }
 
-    pub fn project_shape(&self, s: &Shape, w: &TVal, keep_unknown: bool) -> Expect {
+    /// `keep_top`: whether the top-level type itself retains unknown fields (the types
+    /// synthesised for service methods never do; the declared types below them do).
+    pub fn project_shape(&self, s: &Shape, w: &TVal, keep_unknown: bool, keep_top: bool) -> Expect {
         match s {
-            Shape::Struct(fs) => self.project_struct(fs, w, keep_unknown),
-            Shape::Union { fields, void_ok } => self.project_union(fields, *void_ok, w, keep_unknown),
+            Shape::Struct(fs) => self.project_struct_top(fs, w, keep_unknown, keep_top),
+            Shape::Union { fields, void_ok } => self.project_union_top(fields, *void_ok, w, keep_unknown, keep_top),
             Shape::Enum(_) => Expect::Value(w.clone()),
             Shape::Alias(t) => self.project(t, w, keep_unknown),
         }
     }
 
     fn project_struct(&self, fs: &[SField], w: &TVal, keep_unknown: bool) -> Expect {
+        self.project_struct_top(fs, w, keep_unknown, keep_unknown)
+    }
+
+    fn project_struct_top(&self, fs: &[SField], w: &TVal, keep_unknown: bool, keep_top: bool) -> Expect {
         let TVal::Struct(wfs) = w else { return Expect::Error("not a struct on the wire".into()) };
         let mut out: Vec<(i16, TVal)> = vec![];
         let mut unknown: Vec<(i16, TVal)> = vec![];
@@ -479,13 +491,17 @@ impl SDoc {
                 return Expect::Error(format!("required field {} ({}) absent", f.id, f.name));
             }
         }
-        if keep_unknown {
+        if keep_top {
             out.extend(unknown);
         }
         Expect::Value(TVal::Struct(out))
     }
 
     fn project_union(&self, fs: &[SField], void_ok: bool, w: &TVal, keep_unknown: bool) -> Expect {
+        self.project_union_top(fs, void_ok, w, keep_unknown, keep_unknown)
+    }
+
+    fn project_union_top(&self, fs: &[SField], void_ok: bool, w: &TVal, keep_unknown: bool, keep_top: bool) -> Expect {
         let TVal::Struct(wfs) = w else { return Expect::Error("not a struct on the wire".into()) };
         let mut known: Vec<(i16, TVal)> = vec![];
         let mut unknown: Vec<(i16, TVal)> = vec![];
@@ -499,15 +515,10 @@ impl SDoc {
             }
         }
         match known.len() {
-            1 => {
-                let mut out = known;
-                if keep_unknown {
-                    out.extend(unknown);
-                }
-                Expect::Value(TVal::Struct(out))
-            }
+            // a union holds one thing: next to a known variant, unknown fields are dropped
+            1 => Expect::Value(TVal::Struct(known)),
+            0 if keep_top && unknown.len() == 1 => Expect::Value(TVal::Struct(unknown)),
             0 if void_ok => Expect::Value(TVal::Struct(vec![])),
-            0 if keep_unknown && !unknown.is_empty() => Expect::Value(TVal::Struct(unknown)),
             0 => Expect::Error("union carries no known variant".into()),
             n => Expect::Error(format!("union carries {} variants", n)),
         }
@@ -903,5 +914,340 @@ impl SDoc {
             }
         }
         wfs.iter().any(|(id, x)| fs.iter().find(|f| f.id == *id).map(|f| self.tail_ty(&f.ty, x, args)).unwrap_or(false))
+    }
+}
+
+// ---------------------------------------------------------------------------------------------
+// writer-schema evolution expressed on the wire value (C08, C13)
+
+#[derive(Clone, Debug, PartialEq, Eq, Hash, Serialize, Deserialize)]
+pub enum PathStep {
+    Field(usize),
+    Elem(usize),
+    MapKey(usize),
+    MapVal(usize),
+}
+
+#[derive(Clone, Debug)]
+pub struct StructNode {
+    pub path: Vec<PathStep>,
+    pub known_ids: Vec<i16>,
+    pub is_union: bool,
+    pub depth: usize,
+    pub in_container: bool,
+}
+
+impl SDoc {
+    /// All struct/union nodes of `v` (walked along the schema).
+    pub fn struct_nodes(&self, s: &Shape, v: &TVal) -> Vec<StructNode> {
+        let mut out = vec![];
+        match s {
+            Shape::Struct(fs) => self.nodes_fields(fs, false, v, vec![], 0, false, &mut out),
+            Shape::Union { fields, .. } => self.nodes_fields(fields, true, v, vec![], 0, false, &mut out),
+            Shape::Enum(_) => {}
+            Shape::Alias(t) => self.nodes_ty(t, v, vec![], 0, false, &mut out),
+        }
+        out
+    }
+    fn nodes_ty(&self, ty: &STy, v: &TVal, path: Vec<PathStep>, depth: usize, in_c: bool, out: &mut Vec<StructNode>) {
+        match self.resolve(ty) {
+            Resolved::Struct(fs) => self.nodes_fields(fs, false, v, path, depth, in_c, out),
+            Resolved::Union(fs) => self.nodes_fields(fs, true, v, path, depth, in_c, out),
+            Resolved::Enum(_) => {}
+            Resolved::Plain(p) => match (p, v) {
+                (STy::List(e), TVal::List(_, es)) | (STy::Set(e), TVal::Set(_, es)) => {
+                    for (i, x) in es.iter().enumerate() {
+                        let mut p2 = path.clone();
+                        p2.push(PathStep::Elem(i));
+                        self.nodes_ty(e, x, p2, depth + 1, true, out);
+                    }
+                }
+                (STy::Map(k, vt), TVal::Map(_, _, es)) => {
+                    for (i, (a, b)) in es.iter().enumerate() {
+                        let mut p2 = path.clone();
+                        p2.push(PathStep::MapKey(i));
+                        self.nodes_ty(k, a, p2, depth + 1, true, out);
+                        let mut p3 = path.clone();
+                        p3.push(PathStep::MapVal(i));
+                        self.nodes_ty(vt, b, p3, depth + 1, true, out);
+                    }
+                }
+                _ => {}
+            },
+        }
+    }
+    #[allow(clippy::too_many_arguments)]
+    fn nodes_fields(&self, fs: &[SField], is_union: bool, v: &TVal, path: Vec<PathStep>, depth: usize, in_c: bool, out: &mut Vec<StructNode>) {
+        let TVal::Struct(wfs) = v else { return };
+        out.push(StructNode { path: path.clone(), known_ids: fs.iter().map(|f| f.id).collect(), is_union, depth, in_container: in_c });
+        for (i, (id, x)) in wfs.iter().enumerate() {
+            if let Some(f) = fs.iter().find(|f| f.id == *id) {
+                if self.wire_tt(&f.ty) == x.tt() {
+                    let mut p2 = path.clone();
+                    p2.push(PathStep::Field(i));
+                    self.nodes_ty(&f.ty, x, p2, depth + 1, false, out);
+                }
+            }
+        }
+    }
+}
+
+pub fn node_mut<'a>(v: &'a mut TVal, path: &[PathStep]) -> Option<&'a mut TVal> {
+    let mut cur = v;
+    for s in path {
+        cur = match (s, cur) {
+            (PathStep::Field(i), TVal::Struct(fs)) => &mut fs.get_mut(*i)?.1,
+            (PathStep::Elem(i), TVal::List(_, es)) | (PathStep::Elem(i), TVal::Set(_, es)) => es.get_mut(*i)?,
+            (PathStep::MapKey(i), TVal::Map(_, _, es)) => &mut es.get_mut(*i)?.0,
+            (PathStep::MapVal(i), TVal::Map(_, _, es)) => &mut es.get_mut(*i)?.1,
+            _ => return None,
+        };
+    }
+    Some(cur)
+}
+
+#[derive(Clone, Debug, PartialEq, Eq, Hash, Serialize, Deserialize)]
+pub enum Edit {
+    /// insert a field the reader does not know: (node selector, id seed, position seed, value)
+    AddUnknown(u16, u16, u8, TVal),
+    /// drop a field the writer no longer sends
+    Remove(u16, u8),
+    /// the writer changed a field's type to one with a different wire type
+    Retype(u16, u8, TVal),
+    /// the writer emits fields in another order
+    Reorder(u16, u8),
+}
+
+#[derive(Debug, Clone, Default)]
+pub struct EditInfo {
+    pub added: usize,
+    pub added_nested: usize,
+    pub added_in_container: usize,
+    pub added_in_union: usize,
+    pub removed: usize,
+    pub retyped: usize,
+    pub reordered: usize,
+}
+
+fn fresh_id(known: &[i16], present: &[(i16, TVal)], seed: u16) -> i16 {
+    let mut cands: Vec<i16> = vec![];
+    for k in known {
+        cands.push(k.wrapping_add(1));
+        cands.push(k.wrapping_sub(1));
+    }
+    cands.extend([1, 2, 100, 255, 256, 32767, -1, 0, (seed % 32767) as i16, -((seed % 1000) as i16)]);
+    let start = seed as usize % cands.len();
+    for i in 0..cands.len() {
+        let c = cands[(start + i) % cands.len()];
+        if !known.contains(&c) && !present.iter().any(|(id, _)| *id == c) {
+            return c;
+        }
+    }
+    let mut c = seed as i16;
+    while known.contains(&c) || present.iter().any(|(id, _)| *id == c) {
+        c = c.wrapping_add(7);
+    }
+    c
+}
+
+impl SDoc {
+    /// Applies writer-side edits to a value of the reader's type.
+    pub fn evolve(&self, s: &Shape, v: &TVal, edits: &[Edit], union_replace: bool) -> (TVal, EditInfo) {
+        let mut v = v.clone();
+        let mut info = EditInfo::default();
+        for e in edits {
+            let nodes = self.struct_nodes(s, &v);
+            if nodes.is_empty() {
+                break;
+            }
+            let sel = |i: u16| &nodes[(i as usize * nodes.len()) >> 16];
+            match e {
+                Edit::AddUnknown(ns, ids, pos, val) => {
+                    let n = sel(*ns);
+                    if let Some(TVal::Struct(fs)) = node_mut(&mut v, &n.path) {
+                        let id = fresh_id(&n.known_ids, fs, *ids);
+                        let at = if fs.is_empty() { 0 } else { *pos as usize % (fs.len() + 1) };
+                        if n.is_union && union_replace {
+                            // a union carries exactly one field: the writer chose a variant the
+                            // reader does not know
+                            fs.clear();
+                            fs.push((id, val.clone()));
+                        } else {
+                            fs.insert(at, (id, val.clone()));
+                        }
+                        info.added += 1;
+                        if n.depth > 0 {
+                            info.added_nested += 1;
+                        }
+                        if n.in_container {
+                            info.added_in_container += 1;
+                        }
+                        if n.is_union {
+                            info.added_in_union += 1;
+                        }
+                    }
+                }
+                Edit::Remove(ns, w) => {
+                    let n = sel(*ns);
+                    if let Some(TVal::Struct(fs)) = node_mut(&mut v, &n.path) {
+                        if !fs.is_empty() {
+                            let i = *w as usize % fs.len();
+                            fs.remove(i);
+                            info.removed += 1;
+                        }
+                    }
+                }
+                Edit::Retype(ns, w, val) => {
+                    let n = sel(*ns);
+                    if let Some(TVal::Struct(fs)) = node_mut(&mut v, &n.path) {
+                        if !fs.is_empty() {
+                            let i = *w as usize % fs.len();
+                            if fs[i].1.tt() != val.tt() {
+                                fs[i].1 = val.clone();
+                                info.retyped += 1;
+                            }
+                        }
+                    }
+                }
+                Edit::Reorder(ns, k) => {
+                    let n = sel(*ns);
+                    if let Some(TVal::Struct(fs)) = node_mut(&mut v, &n.path) {
+                        if fs.len() > 1 {
+                            let r = *k as usize % fs.len();
+                            fs.rotate_left(r);
+                            if *k % 2 == 1 {
+                                fs.reverse();
+                            }
+                            info.reordered += 1;
+                        }
+                    }
+                }
+            }
+        }
+        (v, info)
+    }
+}
+
+pub fn arb_edit() -> BoxedStrategy<Edit> {
+    let cfg = crate::tval::GenCfg { utf8: true, max_big: 4097, max_children: 3 };
+    let any_val = (0u32..=2).prop_flat_map(move |d| crate::tval::arb_any(d, cfg));
+    prop_oneof![
+        5 => (any::<u16>(), any::<u16>(), any::<u8>(), any_val.clone()).prop_map(|(a, b, c, d)| Edit::AddUnknown(a, b, c, d)),
+        2 => (any::<u16>(), any::<u8>()).prop_map(|(a, b)| Edit::Remove(a, b)),
+        2 => (any::<u16>(), any::<u8>(), any_val).prop_map(|(a, b, c)| Edit::Retype(a, b, c)),
+        1 => (any::<u16>(), any::<u8>()).prop_map(|(a, b)| Edit::Reorder(a, b)),
+    ]
+    .boxed()
+}
+
+impl SDoc {
+    /// Known finding `union-variant-wire-type-mismatch`: generated union decoders select the
+    /// variant by field id only; true when `v` carries, in some union node, a known variant id
+    /// with a wire type other than the declared one.
+    pub fn union_type_mismatch(&self, s: &Shape, v: &TVal) -> bool {
+        match s {
+            Shape::Struct(fs) => self.utm_fields(fs, false, v),
+            Shape::Union { fields, .. } => self.utm_fields(fields, true, v),
+            Shape::Enum(_) => false,
+            Shape::Alias(t) => self.utm_ty(t, v),
+        }
+    }
+    fn utm_ty(&self, ty: &STy, v: &TVal) -> bool {
+        match self.resolve(ty) {
+            Resolved::Struct(fs) => self.utm_fields(fs, false, v),
+            Resolved::Union(fs) => self.utm_fields(fs, true, v),
+            Resolved::Enum(_) => false,
+            Resolved::Plain(p) => match (p, v) {
+                (STy::List(e), TVal::List(_, es)) | (STy::Set(e), TVal::Set(_, es)) => es.iter().any(|x| self.utm_ty(e, x)),
+                (STy::Map(k, vt), TVal::Map(_, _, es)) => es.iter().any(|(a, b)| self.utm_ty(k, a) || self.utm_ty(vt, b)),
+                _ => false,
+            },
+        }
+    }
+    fn utm_fields(&self, fs: &[SField], is_union: bool, v: &TVal) -> bool {
+        let TVal::Struct(wfs) = v else { return false };
+        for (id, x) in wfs {
+            if let Some(f) = fs.iter().find(|f| f.id == *id) {
+                if self.wire_tt(&f.ty) != x.tt() {
+                    if is_union {
+                        return true;
+                    }
+                } else if self.utm_ty(&f.ty, x) {
+                    return true;
+                }
+            }
+        }
+        false
+    }
+}
+
+
+impl SDoc {
+    /// The wire value is inside the domain of C08/C13: wherever a known field id carries the
+    /// declared outer wire type, its content has the declared inner types too ("retyping inside
+    /// a container is outside the property").
+    pub fn tolerant_conforms_shape(&self, s: &Shape, v: &TVal) -> bool {
+        match s {
+            Shape::Struct(fs) | Shape::Union { fields: fs, .. } => self.tc_fields(fs, v),
+            Shape::Enum(_) => true,
+            Shape::Alias(t) => self.tc_ty(t, v),
+        }
+    }
+    fn tc_ty(&self, ty: &STy, v: &TVal) -> bool {
+        if self.wire_tt(ty) != v.tt() {
+            return false;
+        }
+        match self.resolve(ty) {
+            Resolved::Struct(fs) | Resolved::Union(fs) => self.tc_fields(fs, v),
+            Resolved::Enum(_) => true,
+            Resolved::Plain(p) => match (p, v) {
+                (STy::List(e), TVal::List(t, es)) | (STy::Set(e), TVal::Set(t, es)) => es.is_empty() || (*t == self.wire_tt(e) && es.iter().all(|x| self.tc_ty(e, x))),
+                (STy::Map(k, vt), TVal::Map(a, b, es)) => es.is_empty() || (*a == self.wire_tt(k) && *b == self.wire_tt(vt) && es.iter().all(|(x, y)| self.tc_ty(k, x) && self.tc_ty(vt, y))),
+                _ => true,
+            },
+        }
+    }
+    fn tc_fields(&self, fs: &[SField], v: &TVal) -> bool {
+        let TVal::Struct(wfs) = v else { return false };
+        wfs.iter().all(|(id, x)| match fs.iter().find(|f| f.id == *id) {
+            Some(f) if self.wire_tt(&f.ty) == x.tt() => self.tc_ty(&f.ty, x),
+            _ => true,
+        })
+    }
+}
+
+
+impl SDoc {
+    /// Does the type (transitively) contain a list whose elements own heap memory or input
+    /// handles (strings, binaries, containers, structs)? Such lists are where the known finding
+    /// `list-elem-leak` lives.
+    pub fn shape_has_heap_list(&self, s: &Shape) -> bool {
+        let mut seen = std::collections::BTreeSet::new();
+        match s {
+            Shape::Struct(fs) | Shape::Union { fields: fs, .. } => fs.iter().any(|f| self.ty_has_heap_list(&f.ty, &mut seen)),
+            Shape::Enum(_) => false,
+            Shape::Alias(t) => self.ty_has_heap_list(t, &mut seen),
+        }
+    }
+    fn ty_has_heap_list(&self, t: &STy, seen: &mut std::collections::BTreeSet<(usize, String)>) -> bool {
+        match t {
+            STy::List(e) => {
+                let heap = !matches!(self.resolve(e), Resolved::Enum(_) | Resolved::Plain(STy::Bool | STy::Byte | STy::I16 | STy::I32 | STy::I64 | STy::Double | STy::Uuid));
+                heap || self.ty_has_heap_list(e, seen)
+            }
+            STy::Set(e) => self.ty_has_heap_list(e, seen),
+            STy::Map(k, v) => self.ty_has_heap_list(k, seen) || self.ty_has_heap_list(v, seen),
+            STy::Named(f, n) => {
+                if !seen.insert((*f, n.clone())) {
+                    return false;
+                }
+                match self.decl(*f, n).map(|d| &d.kind) {
+                    Some(DeclKind::Typedef(t)) => self.ty_has_heap_list(t, seen),
+                    Some(DeclKind::Struct(fs)) | Some(DeclKind::Exception(fs)) | Some(DeclKind::Union(fs)) => fs.iter().any(|f| self.ty_has_heap_list(&f.ty, seen)),
+                    _ => false,
+                }
+            }
+            _ => false,
+        }
     }
 }
